@@ -16,6 +16,10 @@ Classes  == {"sp", "tab", "nl", "nbsp", "us", "ch"}
 InlineWs == {"sp", "tab"}
 AllWs    == {"sp", "tab", "nl", "nbsp"}
 StepNames == {"inline_whitespace", "all_whitespace", "underscores"}
+(* clean_text also accepts custom callables as steps: two representatives (reverse the text, drop its
+   first character); any other step value (an unknown name, a non-callable object) raises ValueError *)
+CustomSteps == {"@rev", "@tail"}
+ValidSteps == StepNames \cup CustomSteps
 
 (* re.sub(CLASS+, " ", t): every maximal run of characters in S becomes one "sp" *)
 RECURSIVE Collapse(_, _, _)
@@ -35,13 +39,15 @@ DropUs(t, x) ==
 Apply(step, t) == CASE step = "inline_whitespace" -> Collapse(t, InlineWs, 1)
                     [] step = "all_whitespace"    -> Collapse(t, AllWs, 1)
                     [] step = "underscores"       -> DropUs(t, 1)
+                    [] step = "@rev"  -> [x \in DOMAIN t |-> t[Len(t) + 1 - x]]
+                    [] step = "@tail" -> IF t = <<>> THEN t ELSE Tail(t)
                     [] OTHER -> t
 
 (* clean_text: left fold; an unknown step name raises ValueError *)
 RECURSIVE CleanText(_, _, _)
 CleanText(t, steps, x) ==
     IF x > Len(steps) THEN [text |-> t, err |-> "none"]
-    ELSE IF steps[x] \notin StepNames THEN [text |-> t, err |-> "ValueError"]
+    ELSE IF steps[x] \notin ValidSteps THEN [text |-> t, err |-> "ValueError"]
     ELSE CleanText(Apply(steps[x], t), steps, x + 1)
 
 Keep(t, S) == SelectSeq(t, LAMBDA c : c \notin S)
